@@ -221,12 +221,52 @@ def check_case(ctx, case):
                     return problems
                 for rp, rm in zip(pooled[2], merged[2]):
                     for p in pools:
-                        if prog == "assemble":
-                            compare_assemble(problems, "assemble:pool", rp, p, rm, p, allow_fill=False)
-                        elif rp["samples"][p] != rm["samples"][p]:
-                            problems.append(Problem(prog + ":pool", "%s:%d pool %s = %s gives %s but one sample holding the union of their alignments gives %s" % (rp["CHROM"], rp["POS"], p, pools[p], rp["samples"][p], rm["samples"][p])))
-                        if problems:
+                        dp, dm = rp["samples"][p], rm["samples"][p]
+                        # the read-derived fields are deterministic for every program
+                        for k in ("DP", "RCOUNT", "RCALLS"):
+                            if dp.get(k) != dm.get(k):
+                                problems.append(Problem(prog + ":pool:stat", "%s:%d %s of pool %s = %s is %s but one sample holding the union of their alignments has %s" % (rp["CHROM"], rp["POS"], k, p, pools[p], dp.get(k), dm.get(k))))
+                                return problems
+                        if prog != "call-exact":
+                            # MCMC programs: the rows of the read matrix arrive in another order in a merged BAM, which
+                            # changes floating point sums and the tie-breaking of the greedy initial genotype; their
+                            # sampled statistics are compared through the read multiset below, not bitwise.
+                            continue
+                        same_gt = dp["GT"] == dm["GT"]
+                        gpm_p, gpm_m = float(dp["GPM"]) if dp["GPM"] != "." else None, float(dm["GPM"]) if dm["GPM"] != "." else None
+                        if not same_gt and (gpm_p is None or gpm_m is None or abs(gpm_p - gpm_m) > 0.0011):
+                            problems.append(Problem(prog + ":pool", "%s:%d pool %s = %s gives %s but one sample holding the union of their alignments gives %s" % (rp["CHROM"], rp["POS"], p, pools[p], dp, dm)))
                             return problems
+                        for k in set(dp) & set(dm):
+                            if k in ("GT", "MEC", "MECP") and not same_gt:
+                                continue  # exact posterior tie resolved differently
+                            if dp[k] == dm[k]:
+                                continue
+                            try:
+                                a = [float(x) if x != "." else None for x in dp[k].split(",")]
+                                b = [float(x) if x != "." else None for x in dm[k].split(",")]
+                            except ValueError:
+                                a, b = None, None
+                            tol = 1.01 if k in ("GQ", "SQ") else 0.0011
+                            if a is None or len(a) != len(b) or any((x is None) != (y is None) or (x is not None and abs(x - y) > tol) for x, y in zip(a, b)):
+                                if same_gt or k not in ("AFP", "ACP", "AOP", "GP"):
+                                    problems.append(Problem(prog + ":pool", "%s:%d field %s of pool %s = %s is %s but one sample holding the union of their alignments has %s" % (rp["CHROM"], rp["POS"], k, p, pools[p], dp[k], dm[k])))
+                                    return problems
+            # the pooled read matrix is the multiset union of the members' matrices (what every program infers from)
+            pa = CLI.make_program("call-exact", ["--bam", bam_list(samples, "bams_all.txt")] + pool_arg + ["--ploidy", pool_ploidy, "--haplotypes", hap])
+            pb = CLI.make_program("call-exact", ["--bam"] + merged_paths + ["--ploidy", pool_ploidy, "--haplotypes", hap])
+            import numpy as np
+            for la, lb in zip(pa.loci(), pb.loci()):
+                da = pa._locus_data(la, pa.sample_bams)
+                pa.encode_sample_reads(da)
+                db = pb._locus_data(lb, pb.sample_bams)
+                pb.encode_sample_reads(db)
+                for p in pools:
+                    ka = sorted((np.nan_to_num(x, nan=-1).tobytes(), int(n)) for x, n in zip(da.read_dists[p], da.read_counts[p]))
+                    kb = sorted((np.nan_to_num(x, nan=-1).tobytes(), int(n)) for x, n in zip(db.read_dists[p], db.read_counts[p]))
+                    if ka != kb:
+                        problems.append(Problem("pool:read_multiset", "%s:%d pool %s = %s: the de-duplicated reads and counts differ from those of the union of alignments (%d vs %d distinct reads)" % (la.contig, la.start + 1, p, pools[p], len(ka), len(kb))))
+                        return problems
     finally:
         shutil.rmtree(wd, ignore_errors=True)
         ctx.record(case, len(samples) >= 3 or n_pooled >= 2, ["dataset", "pool_mode=" + case["pool_mode"], "n_samples=%d" % len(samples)])
